@@ -142,22 +142,28 @@ PLACEMENTS = ([("al", k * SLOT) for k in range(NSLOT)] + [("hs", k * SLOT + SLOT
                  ("lo-by-one-byte", -1), ("hi-by-one-byte", AREA - SLOT + 1), ("shift+1", 1), ("shift-1", AREA - SLOT - 1)])
 
 
-def rec_bytes(tag):
-    return bytes(((tag * 37 + i * 11) % 254) + 1 for i in range(SLOT))   # never 0xFF so fill is distinguishable
+def rec_bytes(tag, n=SLOT):
+    return bytes(((tag * 37 + i * 11) % 254) + 1 for i in range(n))   # never 0xFF so fill is distinguishable
+
+
+def _ol(p):
+    """a placement is an offset (a record of SLOT bytes) or (offset, length)"""
+    return (p, SLOT) if isinstance(p, int) else (p[0], p[1])
 
 
 def ref_merge(base, placements, salt=0):
     """placements: list of offsets. returns expected bytes or None (reject)."""
     area = bytearray(b"\xff" * AREA)
     used = set()
-    for n, off in enumerate(placements):
-        if off < 0 or off + SLOT > AREA:
+    for n, pl in enumerate(placements):
+        off, ln = _ol(pl)
+        if off < 0 or off + ln > AREA:
             return None
-        rng = set(range(off, off + SLOT))
+        rng = set(range(off, off + ln))
         if used & rng:
             return None
         used |= rng
-        area[off:off + SLOT] = rec_bytes(n + salt)
+        area[off:off + ln] = rec_bytes(n + salt, ln)
     return bytes(area) + hashlib.sha256(bytes(area)).digest()
 
 
@@ -169,14 +175,14 @@ def do_merge(m, base, offs, agg, key, label, via_main=False, none_files=False, r
     """-> False if a violation was reported.  workdir: an already used directory (same input and output paths as the
     previous merge of the history, other content)"""
     import contextlib
-    if any(base + off < 0 for off in offs):
+    if any(base + _ol(off)[0] < 0 for off in offs):
         agg.rej(key, "placement-below-address-zero-not-representable", nontrivial=False)
         return True
     with (fresh_dir("c12m") if workdir is None else contextlib.nullcontext(workdir)) as d:
         files = []
         for n, off in enumerate(offs):
             f = os.path.join(d, ODD_NAMES[(n + key) % len(ODD_NAMES)] if (key % 2 == 0 and workdir is None) else f"r{n}.hex")
-            refhex.write_hex([(base + off, rec_bytes(n + salt))], f)
+            refhex.write_hex([(base + _ol(off)[0], rec_bytes(n + salt, _ol(off)[1]))], f)
             files.append(f)
         out = os.path.join(d, "merged.hex")
         if workdir is not None and os.path.exists(out):
@@ -265,6 +271,27 @@ def merge_step(hist, agg, expand):
     return [(f"place:{PLACEMENTS[i][0]}@{PLACEMENTS[i][1]}", hist + (i,), h8("m", hist + (i,))) for i in range(len(PLACEMENTS))]
 
 
+# -- records of different sizes ------------------------------------------------------------------------------
+def mixed_cases(tier):
+    """every ordered pair (thorough: + the triples whose first two members are disjoint) of intervals from a grid: starts
+    at multiples of 48 (+ two off-grid starts), lengths 1, 24, 48, 96, 192 and the whole area - one record enclosing,
+    enclosed by, abutting, or sharing an end point with another, in both orders"""
+    starts = [k * SLOT for k in range(NSLOT)] + [SLOT // 2, AREA - 1]
+    lens = [1, SLOT // 2, SLOT, 2 * SLOT, 4 * SLOT, AREA]
+    ivs = [(a, n) for a in starts for n in lens if a + n <= AREA + SLOT]
+    out = []
+    for i, a in enumerate(ivs):
+        for j, b in enumerate(ivs):
+            out.append({"base": AREA_ADDRS[(i + j) % 3], "offs": [a, b]})
+    if tier == "thorough":
+        small = [(a, n) for a, n in ivs if a % (2 * SLOT) == 0 and n in (1, SLOT, 2 * SLOT, AREA)]
+        for a in small:
+            for b in small:
+                for c in small:
+                    out.append({"base": 0x1000, "offs": [a, b, c]})
+    return out
+
+
 def subset_cases(tier):
     out = []
     for b in AREA_ADDRS:
@@ -347,6 +374,8 @@ def plan(tier):
         BfsStage("merge-histories-one-directory", mdir_init, mdir_step, max_depth=2 if tier == "quick" else 3,
                  rule="histories of merges in one process and directory: 8 placement sets, input files regenerated under the same paths"),
         CaseStage("cli", lambda: cli_cases(tier), run_cli, rule="real CLI: 12 flag combinations x address/size syntax x names; merge with 0/1/3 --file"),
+        CaseStage("merge-mixed-sizes", lambda: mixed_cases(tier), run_subset,
+                  rule="ordered pairs (thorough: + triples) of records of different lengths (1 byte .. the whole area) on a grid of starts: enclosing / enclosed / abutting / sharing an end point"),
         CaseStage("merge-subsets", lambda: subset_cases(tier), run_subset, disjoint=True,
                   rule="all 2^8 subsets of aligned placements (+ each single faulty placement in thorough)"),
     ]
